@@ -340,6 +340,7 @@ func genC14(p *Pkg) (map[string]string, error) {
 		{"vm", "_restoreStacks", "skel_restoreStacks"},
 		{"generatorObject", "step", "skel_generatorObjectStep"},
 		{"generatorObject", "tryCallDelegated", "skel_tryCallDelegated"},
+		{"generator", "nextThrow", "skel_generatorNextThrow"},
 		{"asyncRunner", "step", "skel_asyncRunnerStep"},
 		{"Exception", "Error", "skel_ExceptionError"},
 		{"Exception", "String", "skel_ExceptionString"},
